@@ -91,6 +91,12 @@ def main():
     if not args.no_evidence and not args.replay:
         write_evidence(prop, check, args.tier, seed, merged, wall, nshards, errors)
 
+    if 'survey' in merged['extra']:
+        os.makedirs('/tmp/vf_survey', exist_ok=True)
+        with open(f'/tmp/vf_survey/{prop}.json', 'w') as fp:
+            json.dump(merged['extra']['survey'], fp, indent=1, default=str)
+        for sig, ent in sorted(merged['extra']['survey'].items(), key=lambda kv: -kv[1]['count']):
+            print(f'SURVEY {ent["count"]:5d} {sig}  | {ent.get("detail", "")[:160]}')
     for line in sorted(set(merged['known_lines'])):
         print(line)
     print(f'[{prop}] tier={args.tier} seed={seed} shards={nshards} cases={merged["cases"]} '
@@ -129,7 +135,14 @@ def merge(results):
         m['known_lines'] += r['known_lines']
         m['exhaustive_parts'] += r.get('exhaustive_parts', [])
         for k, v in r.get('extra', {}).items():
-            if isinstance(v, (int, float)):
+            if k == 'survey':
+                sv = m['extra'].setdefault('survey', {})
+                for sig, ent in v.items():
+                    cur = sv.setdefault(sig, {'count': 0, 'size': 10**9})
+                    cur['count'] += ent['count']
+                    if ent['size'] < cur['size']:
+                        cur.update({kk: vv for kk, vv in ent.items() if kk != 'count'})
+            elif isinstance(v, (int, float)):
                 m['extra'][k] = m['extra'].get(k, 0)+v
             else:
                 m['extra'].setdefault(k, v)
